@@ -185,7 +185,7 @@ class CategoriesToIntegers(BaseEstimator, TransformerMixin):
                             )
                     else:
                         p = pos[k] + vec[k][v]
-                    res[i, p] = 1.0
+                        res[i, p] = 1.0
 
             if dfnum.shape[1] > 0:
                 newdf = pandas.DataFrame(res, columns=sch, index=dfcat.index)
